@@ -410,12 +410,21 @@ def make_adapters_from_one_specification(
         path, _, parameters_spec = spec[5:].partition(";")
         parameters = search_parameters.copy()
         parameters.update(parse_search_parameters(parameters_spec))
+        # These two are not arguments of the adapter classes, but are
+        # interpreted when an adapter specification is parsed
+        file_flags = [
+            flag for flag in ("anywhere", "rightmost") if parameters.pop(flag, False)
+        ]
         for name, spec in read_adapters_fasta(path):
             # The anchoring suffix belongs to the sequence, not to the
             # parameters that may follow it in the FASTA record. In a
             # linked adapter, it belongs to the sequence of the 3' part.
             head, ellipsis, last = spec.rpartition("...")
             sequence, semicolon, record_parameters = last.partition(";")
+            for flag in file_flags:
+                if flag not in parse_search_parameters(record_parameters):
+                    semicolon = ";"
+                    record_parameters += ";" + flag
             yield make_adapter(
                 anchoring_prefix
                 + head
@@ -542,12 +551,12 @@ def _make_not_linked_adapter(
         RightmostFrontAdapter,
     ):
         aspec.parameters["force_anywhere"] = True
-    if "required" in aspec.parameters:
+    parameters = search_parameters.copy()
+    parameters.update(aspec.parameters)
+    if "required" in parameters:
         raise ValueError(
             "'required' and 'optional' can only be used within linked adapters"
         )
-    parameters = search_parameters.copy()
-    parameters.update(aspec.parameters)
     return adapter_class(
         sequence=aspec.sequence,
         name=aspec.name if name is None else name,
